@@ -91,8 +91,9 @@ def maybe(strategy, p_none=0.5):
 
 class Profile:
     def __init__(self, doc=None, p_doc_mostly=False, max_items=8, depth=3, kinds=None, body_max=4,
-                 dangling=True, classes=True, tests=True, groups=True, moddoc=True, parseargs=True):
-        self.doc = doc or benign_doc()
+                 dangling=True, classes=True, tests=True, groups=True, moddoc=True, parseargs=True,
+                 moddoc_indent=None):
+        self.doc = doc if doc is not None else benign_doc()
         self.p_doc_mostly = p_doc_mostly
         self.max_items = max_items
         self.depth = depth
@@ -104,6 +105,7 @@ class Profile:
         self.groups = groups
         self.moddoc = moddoc
         self.parseargs = parseargs
+        self.moddoc_indent = moddoc_indent
 
     def mdoc(self):
         return maybe(self.doc, 0.2 if self.p_doc_mostly else 0.5)
@@ -208,7 +210,8 @@ def module(p):
         moddoc = st.one_of(st.none(), st.none(), st.fixed_dictionaries({
             "name": st.one_of(st.none(), st.sampled_from(["mod_@", "My.Module@", "pkg/mod@", "m@-x"])),
             "lines": st.lists(benign_line(), max_size=3) if p.doc is None else p.doc.map(lambda d: d["lines"]),
-            "mpos": st.integers(0, 8)}))
+            "mpos": st.integers(0, 8),
+            "indent": st.none() if p.moddoc_indent is None else p.moddoc_indent}))
     return st.fixed_dictionaries({"moddoc": moddoc,
                                   "items": items(p, p.depth, "top", p.max_items)}).map(finalize)
 
@@ -250,7 +253,10 @@ def _fin_doc(d, c, bare_ok=True):
         # leader-less form is only defined for lines starting with a letter (and non-empty docs)
         if not lines or not all(l == "" or l[0].isalpha() for l in lines) or not bare_ok:
             form = "leader"
-    return {"lines": lines, "form": form, "marker": marker}
+    out = {"lines": lines, "form": form, "marker": marker}
+    if d.get("indent") is not None:
+        out["indent"] = d["indent"] if form != "bare" else ""
+    return out
 
 
 def _fin_items(lst, c, in_body):
@@ -359,7 +365,7 @@ def finalize(skel):
             lines[i] = (lines[i] + " " + marker) if lines[i] else marker
         else:
             marker = None
-        md = {"name": _num(md["name"], c), "lines": lines, "marker": marker}
+        md = {"name": _num(md["name"], c), "lines": lines, "marker": marker, "indent": md.get("indent")}
     return {"moddoc": md, "items": _fin_items(skel["items"], c, False)}
 
 
